@@ -14,6 +14,10 @@ CHECKS = {
     technique="explicit enumeration of operation sequences x inputs x modes on the real code (E1), value==wire invariant at every returned object",
     text="Same enumeration as C01 in all four modes (checked, ignore_errors, true guard, false guard); for every secret reachable from every returned object the reported value must be congruent mod p to its linear combination evaluated on the recorded witness.",
     note="Same trusted base as C01."),
+ "C05": dict(cat="model_checking", design="3/C05, 2.2",
+    technique="explicit enumeration of operation sequences x inputs on the real code (E1), differential against a plain-Python reference model at every step",
+    text="Every depth-1 program over integer and boolean secrets (all operators, three operand-kind combinations incl. every reflected method, boolean combinations) on all input vectors of D(2), D(3) and boundary lattices for 4/8/16 bits, plus depth-2 compositions on D(2): the value returned by every API call equals the reference model's (plain int arithmetic) or the call raises; inside the narrowest reading of the documented domain a raise is a violation.",
+    note="Reference model pv/ops.py (Python int semantics); integer ~ is excluded from the equality oracle (documented n-bit complement); boolean-typed operand combinations that the API does not offer at all are skipped and listed in the evidence."),
 }
 
 NOT_YET = {}
